@@ -112,6 +112,7 @@ fn run(ctx: &mut Ctx) {
     let mut g = Gen::new(alpha());
     let mut idx = 0u64;
     wide(ctx, &mut idx);
+    long_names(ctx, &mut idx);
     for size in 1..=upto {
         let mut todo = vec![];
         let mut flush = |ctx: &mut Ctx, todo: &mut Vec<Ast>| {
@@ -160,6 +161,29 @@ fn wide(ctx: &mut Ctx, idx: &mut u64) {
                         check(ctx, &a, &text, true);
                         ctx.count("wide_formulas", 1);
                     }
+                }
+            }
+        }
+    }
+}
+
+/// long variable names that differ only in their last character
+fn long_names(ctx: &mut Ctx, idx: &mut u64) {
+    for l in [7usize, 8, 15, 16, 31, 32, 33, 63, 64, 65, 127, 128, 255, 256, 300] {
+        for stem in ["valve_of_the_primary_cooling_circuit_is_", "x"] {
+            let base: String = stem.chars().cycle().take(l).collect();
+            let (n1, n2, n3) = (format!("{base}a"), format!("{base}b"), format!("{base}"));
+            for a in [
+                Ast::bin(Bin::And, Ast::var(&n1), Ast::not(Ast::var(&n2))),
+                Ast::bin(Bin::Or, Ast::q(true, &[n1.as_str()], Ast::bin(Bin::And, Ast::var(&n1), Ast::var(&n2))), Ast::var(&n3)),
+                Ast::fp(&n1, false, Ast::bin(Bin::Or, Ast::var(&n1), Ast::bin(Bin::And, Ast::var(&n2), Ast::var(&n3)))),
+            ] {
+                *idx += 1;
+                if ctx.mine(*idx) {
+                    let text = refl::pp(&a, refl::MINIMAL);
+                    check(ctx, &a, &text, false);
+                    check(ctx, &a, &text, true);
+                    ctx.count("long_name_formulas", 1);
                 }
             }
         }
